@@ -846,16 +846,45 @@ mod native {
                 formula_failures += 1;
             }
             rep.check("C02.pdf.formula", regime, ok, || json!({"setting": params, "x": x, "observed": jnum(got), "expected": want, "rel_tol": tol}));
-            if got.is_finite() && got >= 1e-300 {
+            // the log-density is judged at every point at which the density is judged
+            if !got.is_nan() && got >= 0.0 {
+                rep.seen(&format!("ln_pdf:support:{}", law), 1);
                 match guard(|| (m.ln_pdf)(x)) {
                     Ok(l) => {
-                        let lw = got.ln();
-                        let err = (l - lw).abs();
-                        let bound = FORMULA_TOL * lw.abs().max(1.0);
-                        if err <= bound {
-                            rep.note_max("worst_ratio.ln_pdf", err / bound);
+                        let ref_l = (m.ref_ln)(x);
+                        // log-space image of the density tolerance (relative tol + absolute 1e-300)
+                        let rel = tol + if want > 0.0 { 1e-300 / want } else { f64::INFINITY };
+                        let fbound = FORMULA_TOL * ref_l.abs().max(1.0) + if rel < 0.1 { 2.0 * rel } else { 2.0 * tol };
+                        let ferr = (l - ref_l).abs();
+                        if got.is_finite() && got >= 1e-300 {
+                            // against the logarithm of the density the library itself returns
+                            let lw = got.ln();
+                            let err = (l - lw).abs();
+                            let bound = FORMULA_TOL * lw.abs().max(1.0);
+                            if err <= bound {
+                                rep.note_max("worst_ratio.ln_pdf", err / bound);
+                            }
+                            rep.check("C02.ln_pdf", regime, err <= bound, || json!({"setting": params, "x": x, "ln_pdf": jnum(l), "ln(pdf)": lw, "pdf": got}));
+                            // and against the reference log-density
+                            if rel < 0.1 {
+                                if ferr <= fbound {
+                                    rep.note_max("worst_ratio.ln_pdf.formula", ferr / fbound);
+                                }
+                                rep.check("C02.ln_pdf.formula", regime, ferr <= fbound, || json!({"setting": params, "x": x, "ln_pdf": jnum(l), "expected": ref_l, "abs_tol": fbound, "pdf": got}));
+                            }
+                        } else if got.is_finite() {
+                            // far tails: the density is below 1e-300 (0 is right to absolute 1e-300).
+                            // Either the logarithm of the value the library returns as density (−inf
+                            // for an exact 0) or the reference log-density is accepted.
+                            rep.seen(&format!("ln_pdf:underflow-tail:{}", law), 1);
+                            let lw = got.ln();
+                            let twin = if got == 0.0 { l == f64::NEG_INFINITY } else { (l - lw).abs() <= FORMULA_TOL * lw.abs() };
+                            let closed = ferr <= fbound;
+                            if l == f64::NEG_INFINITY && ref_l.is_finite() {
+                                rep.note_add("evidence.ln_pdf.neg_inf_where_density_underflows", 1.0);
+                            }
+                            rep.check("C02.ln_pdf", regime, twin || closed, || json!({"setting": params, "x": x, "ln_pdf": jnum(l), "ln(pdf)": jnum(lw), "pdf": got, "reference_ln_density": ref_l, "abs_tol": fbound, "expected": "ln(pdf(x)) or the reference log-density"}));
                         }
-                        rep.check("C02.ln_pdf", regime, err <= bound, || json!({"setting": params, "x": x, "ln_pdf": jnum(l), "ln(pdf)": lw, "pdf": got}));
                     }
                     Err(msg) => {
                         rep.check("C02.ln_pdf", regime, false, || json!({"setting": params, "x": x, "panic": msg}));
@@ -890,6 +919,22 @@ mod native {
                 "chi2" => x == m.lo && spec.a >= 2.0,
                 _ => false,
             };
+            // the log-density at a support end is the logarithm of whatever the density is there
+            // (−inf for 0, +inf at a singular end)
+            if let (true, Ok(got)) = (ok, &r) {
+                rep.seen(&format!("ln_pdf:boundary:{}", law), 1);
+                let got = *got;
+                match guard(|| (m.ln_pdf)(x)) {
+                    Ok(l) => {
+                        let lw = got.ln();
+                        let okl = if got == 0.0 || got == f64::INFINITY { l == lw } else { (l - lw).abs() <= FORMULA_TOL * lw.abs().max(1.0) };
+                        rep.check("C02.boundary.ln_pdf", regime, okl, || json!({"setting": params, "x": x, "ln_pdf": jnum(l), "ln(pdf)": jnum(lw), "pdf": jnum(got)}));
+                    }
+                    Err(msg) => {
+                        rep.check("C02.boundary.ln_pdf", regime, false, || json!({"setting": params, "x": x, "panic": msg}));
+                    }
+                }
+            }
             if let (true, Ok(got)) = (closed, &r) {
                 // the limit is read off two points 1 and 4 ulps inside the support: equal values =
                 // finite non-zero limit (the end value must match it), decreasing towards the end =
@@ -915,6 +960,12 @@ mod native {
             let r = guard(|| (m.pdf)(x));
             let ok = matches!(r, Ok(v) if v == 0.0);
             rep.check("C02.outside.zero", &regime, ok, || json!({"setting": params, "x": x, "support": [jnum(m.lo), jnum(m.hi)], "observed": match &r { Ok(v) => jnum(*v), Err(e) => json!({"panic": e}) }, "expected": 0.0}));
+            // the density is exactly 0 outside the support, so its logarithm is −inf (no panic, not
+            // NaN, not a finite number)
+            rep.seen(&format!("ln_pdf:outside:{}", law), 1);
+            let rl = guard(|| (m.ln_pdf)(x));
+            let okl = matches!(rl, Ok(v) if v == f64::NEG_INFINITY);
+            rep.check("C02.outside.ln_pdf", &regime, okl, || json!({"setting": params, "x": x, "support": [jnum(m.lo), jnum(m.hi)], "observed": match &rl { Ok(v) => jnum(*v), Err(e) => json!({"panic": e}) }, "pdf": match &r { Ok(v) => jnum(*v), Err(e) => json!({"panic": e}) }, "expected": "-inf"}));
         }
 
         // (b) total mass and moments of the library's own pdf
@@ -2257,7 +2308,7 @@ mod native {
     // -----------------------------------------------------------------------------------------
 
     pub fn run(cfg: &Cfg, rep: &mut Report) {
-        rep.rule = "settings = fixed grid over every law x parameter regime of the quantifier (+ random settings inside the same regimes in the thorough tier); per setting: 41-point quantile ladder, centre, ±50/1e3/1e6 scale units, support ends ±1 ulp, points strictly outside; discrete laws: every count of the support (Poisson: 0..lambda+40 sqrt(lambda)+60) plus negative and too-large counts; edge settings: Gamma shape 20..171.5 x rates 1e-3..1e3 and rates with α·ln β = ±690..709.5, Beta with α+β = 143..171.6 in both orders, χ² dof 120..198, plus points x with (shape−1)·ln x = 680..709.6 for every Gamma/χ² setting; MVN: random SPD covariance, dimension 1..6, points at 0..45 Mahalanobis radii. Exact coincidences: every continuous setting also at its parameters and their simple combinations, textbook/reported mean, mean ± sd, mode, median, whole numbers and centre + k·scale/2 (regime <base>:coincide); MVN with random-SPD / equicorrelated / AR(1)-Toeplitz covariances and zero / integer / on-lattice / generic means at x = mean, at points that equal the mean bit for bit on a non-empty proper subset of the coordinates (10 subsets per setting incl. first-only, last-only, all-but-first) and at power-of-two lattice points, axis points and signed zeros (regimes mvn:tie:all, mvn:tie:partial, mvn:lattice). MVN in other units (regimes mvn:scale:uniform:*, mvn:scale:per-coordinate:*): ten base covariances (random SPD, equicorrelated, AR(1)-Toeplitz, hub-and-leaves with the hub first / last, banded, block-diagonal, ring / tree / sparse graph under a random labelling, inverse of a chain / tree precision matrix, diagonal + rank one) x dimension 1..6 x units s_j per coordinate (one power of two or ten for all, a few decades around a common magnitude, independent over 40 decades, graded), standard deviations 1e-20..1e20, means s_j x (0 / integer / O(10) / O(1e3)), points mean + t L z for t = 0..45 plus 5 partial ties with the mean; the structured bases also at unit scale (regimes mvn:structured:<kind>); pdf and ln_pdf against the double-double reference. evaluations = point evaluations + one per moment check; distinct = distinct (law, parameters); all are non-trivial".into();
+        rep.rule = "settings = fixed grid over every law x parameter regime of the quantifier (+ random settings inside the same regimes in the thorough tier); per setting: 41-point quantile ladder, centre, ±50/1e3/1e6 scale units, support ends ±1 ulp, points strictly outside; discrete laws: every count of the support (Poisson: 0..lambda+40 sqrt(lambda)+60) plus negative and too-large counts; edge settings: Gamma shape 20..171.5 x rates 1e-3..1e3 and rates with α·ln β = ±690..709.5, Beta with α+β = 143..171.6 in both orders, χ² dof 120..198, plus points x with (shape−1)·ln x = 680..709.6 for every Gamma/χ² setting; MVN: random SPD covariance, dimension 1..6, points at 0..45 Mahalanobis radii. Exact coincidences: every continuous setting also at its parameters and their simple combinations, textbook/reported mean, mean ± sd, mode, median, whole numbers and centre + k·scale/2 (regime <base>:coincide); MVN with random-SPD / equicorrelated / AR(1)-Toeplitz covariances and zero / integer / on-lattice / generic means at x = mean, at points that equal the mean bit for bit on a non-empty proper subset of the coordinates (10 subsets per setting incl. first-only, last-only, all-but-first) and at power-of-two lattice points, axis points and signed zeros (regimes mvn:tie:all, mvn:tie:partial, mvn:lattice). MVN in other units (regimes mvn:scale:uniform:*, mvn:scale:per-coordinate:*): ten base covariances (random SPD, equicorrelated, AR(1)-Toeplitz, hub-and-leaves with the hub first / last, banded, block-diagonal, ring / tree / sparse graph under a random labelling, inverse of a chain / tree precision matrix, diagonal + rank one) x dimension 1..6 x units s_j per coordinate (one power of two or ten for all, a few decades around a common magnitude, independent over 40 decades, graded), standard deviations 1e-20..1e20, means s_j x (0 / integer / O(10) / O(1e3)), points mean + t L z for t = 0..45 plus 5 partial ties with the mean; the structured bases also at unit scale (regimes mvn:structured:<kind>); pdf and ln_pdf against the double-double reference. ln_pdf of every continuous law is evaluated at every point at which pdf is judged: inside the support (against ln(pdf) and against the reference log-density), in the far tails where the density underflows (−inf = ln of the returned 0, or the reference log-density), on the support ends (ln of the returned density) and strictly outside the support (exactly −inf). evaluations = point evaluations + one per moment check; distinct = distinct (law, parameters); all are non-trivial".into();
         rep.assume("pointwise formula checks are restricted to points where every partial product of the textbook factors is a representable f64 (DESIGN: 'combinations whose textbook factors are individually representable'); skipped points are counted in notes.skipped.*");
         rep.assume("edge of the f64 range (regimes <law>:factor-edge, laws Gamma, Beta, ChiSquared): a point that fails the order-free rule only because a factor or partial product lies in the last e^10 of the range is still judged when every intermediate result of the textbook formula evaluated as printed (Gamma: β^α/Γ(α)·x^(α−1)·e^(−βx); Beta: x^(α−1)(1−x)^(β−1)/B, B = Γ(α)Γ(β)/Γ(α+β); χ²: 1/(2^(k/2)Γ(k/2))·x^(k/2−1)·e^(−x/2)) has its logarithm in [-708, 709.7] (underflow allowed when the density itself is below e^-700); beyond that range no textbook factor is an f64 and nothing is judged");
         rep.assume("mass/mean/var are integrated only when the pointwise formula check passed for the setting (a wrong pdf is already reported), when the moment is finite with tail exponent margin >= 1/2 (T dof >= 1.5/2.5, Pareto alpha >= 1.5/2.5) and the density is not singular at a non-zero support end (Beta with b < 1)");
@@ -2328,6 +2379,19 @@ mod native {
             }
             for law in ["normal", "gamma", "beta", "chi2", "t", "pareto", "gumbel", "exponential", "uniform"] {
                 rep.require(&format!("coincide:{}", law), 10);
+            }
+            // the log-density is evaluated at every kind of point: inside the support for every law,
+            // where the density has left the f64 range for every law with unbounded support, on the
+            // support ends and strictly outside for every law with a bounded end
+            for law in ["normal", "gamma", "beta", "chi2", "t", "pareto", "gumbel", "exponential", "uniform"] {
+                rep.require(&format!("ln_pdf:support:{}", law), 100);
+            }
+            for law in ["normal", "gamma", "chi2", "gumbel", "exponential"] {
+                rep.require(&format!("ln_pdf:underflow-tail:{}", law), 10);
+            }
+            for law in ["gamma", "beta", "chi2", "pareto", "exponential", "uniform"] {
+                rep.require(&format!("ln_pdf:boundary:{}", law), 5);
+                rep.require(&format!("ln_pdf:outside:{}", law), 20);
             }
             for band in ["sd<1e-6", "1e-6<=sd<=1e6", "sd>1e6"] {
                 rep.require(&format!("mvn:scale:uniform:{}", band), 200);
